@@ -216,11 +216,23 @@ def run_impl(c):
                 list(db.merge([objs[i] for i in idx], merge_criteria=crit))
             except Exception:
                 pass
+        last = []
         for tag in ("first", "second"):
             try:
-                out[tag] = observe(list(db.merge(objs, merge_criteria=crit)), objs)
+                last = list(db.merge(objs, merge_criteria=crit))
+                out[tag] = observe(last, objs)
             except Exception as ex:
                 out[tag] = ["err", L.err_class(ex)]
+        # an object that joins no run is yielded as it is, with no children - also when it is the merged
+        # output of an earlier call
+        alone = True
+        for o in last:
+            try:
+                r = list(db.merge([o], merge_criteria=crit))
+                alone = alone and len(r) == 1 and r[0] is o and not getattr(r[0], "children", ())
+            except Exception:
+                alone = False
+        out["alone_ok"] = alone
         if [str(x) for x in objs] != before:
             out["first"] = ["err", "Other"]          # inputs' columns/attributes must be unchanged
         return out
@@ -274,7 +286,8 @@ def coq_case(c, o):
     if c["k"] == "merge":
         a0 = L.lst(["(%s, %s)" % (L.s(k), L.z(v)) for k, v in o["a0"]], "(str * Z)")
         pre = L.lst([L.lst([coq_in(c["feats"][i]) for i in idx], "minput") for idx in c.get("pre", [])], "(list minput)")
-        return "CMerge %s %s %s %s %s %s" % (coq_criteria(c["crit"]), pre, ins, a0, coq_obs(o["first"]), coq_obs(o["second"]))
+        return "CMerge %s %s %s %s %s %s %s" % (coq_criteria(c["crit"]), pre, ins, a0, coq_obs(o["first"]), coq_obs(o["second"]),
+                                                L.b(o.get("alone_ok", False)))
     if c["k"] == "all":
         mem = L.lst(["(%s, %s)" % (L.s(k), L.z(v)) for k, v in o["mem"]], "(str * Z)")
         return "CMergeAll %s %s %s %s" % (L.b(c["exclude"]), imp.coq_tables(o["before"]), mem, imp.res_tables(o["after"]))
